@@ -81,6 +81,10 @@ func init() {
 			rep.Conc = append(rep.Conc, concRes{fsrep.ConcConfig{Writers: 1, PerW: 7, Seed: -1}, mm})
 			rep.Problems += len(mm)
 		}
+		if mm := fsrep.RunWriteFault(); true {
+			rep.Conc = append(rep.Conc, concRes{fsrep.ConcConfig{Writers: 1, PerW: 5, Seed: -3}, mm})
+			rep.Problems += len(mm)
+		}
 		if mm := fsrep.RunDirRemoved(); true {
 			rep.Conc = append(rep.Conc, concRes{fsrep.ConcConfig{Writers: 1, PerW: 3, Seed: -2}, mm})
 			rep.Problems += len(mm)
